@@ -25,6 +25,9 @@ ASSUMPTIONS = ["push(cm) is indistinguishable from enter_context(cm) and push_as
                "for bound-method and wrapped-callback registrations obj may be the callable or the object it is bound to / wraps"]
 
 
+RULE += ' Round 9: 40 trees in which ONE exit stack is registered at several places.'
+
+
 def legs(tier):
     from vlib.runner import Leg
     n = 3 if tier == "quick" else 10
